@@ -67,36 +67,6 @@ Definition starts_closer (ts : list token) : Prop :=
 Lemma closer_tokrank : forall ts, starts_closer ts -> tokrank T ts = None.
 Proof. intros [|t ts] H; [contradiction|]. destruct t; try discriminate; reflexivity. Qed.
 
-(* ---- the shape of argument lists (the args grammar) ---- *)
-Fixpoint all_named (a : args) : Prop :=
-  match a with
-  | ANil => True
-  | ANamed _ _ r => all_named r
-  | _ => False
-  end.
-Fixpoint shape_from (st : sstate) (a : args) : Prop :=
-  match a with
-  | ANil => st = S0
-  | AEmpty r => shape_from (after_empty st) r
-  | AVal _ r => match r with ANil => True | _ => shape_from SV r end
-  | ANamed _ _ r => named_ok st = true /\ all_named r
-  end.
-Fixpoint shaped (t : tree) : Prop :=
-  match t with
-  | Atom _ => True
-  | Un _ y | Suf _ y | Wrap y => shaped y
-  | Bin _ l r => shaped l /\ shaped r
-  | Index x a => shaped x /\ shape_from S0 a /\ shaped_args a
-  | ListE a | MapE a | Call _ a => shape_from S0 a /\ shaped_args a
-  end
-with shaped_args (a : args) : Prop :=
-  match a with
-  | ANil => True
-  | AEmpty r => shaped_args r
-  | AVal x r => shaped x /\ shaped_args r
-  | ANamed k v r => shaped k /\ shaped v /\ shaped_args r
-  end.
-
 (* ---- the statements ---- *)
 Definition P_tree (t : tree) : Prop :=
   forall p rest res f0,
